@@ -38,7 +38,7 @@ def load_prop(pid):
 
 def run_one(mod, seed, tier, run):
     rng = core.substream(seed, mod.ID, 'run', run)
-    case = mod.generate(rng, tier, run)
+    case = mod.generate(rng, tier, run, seed)
     out = mod.execute(case)
     return case, out
 
@@ -65,7 +65,7 @@ def worker_main(args):
     faulthandler.enable()
     mod = load_prop(args.prop)
     deadline = time.perf_counter() + args.wall
-    faulthandler.dump_traceback_later(args.wall + 600, exit=True)
+    faulthandler.dump_traceback_later(args.wall + 90, exit=True)
     known = core.load_known()
     hashseed = int(os.environ.get('PYTHONHASHSEED', '0'))
     res = {
@@ -203,7 +203,7 @@ def driver_main(args):
         pp = spawn(pid, seed, tier, 0, 1, nruns, wall, pout, hs, runs=probe_runs, digests=True, maxsigs=0)
         results = []
         harness_errors = []
-        hard = wall + 900
+        hard = wall + 150
         for w, out, p in procs + [(-1, pout, pp)]:
             try:
                 so, se = p.communicate(timeout=max(5, hard - (time.perf_counter() - t0)))
